@@ -12,8 +12,8 @@ open Conv
    C09_REFHULL=offsets  a reference with an Explicit repetition is repeated at all offsets (F9); the box path
                         then also sees the offsets, which gives the same box (C11: same extremes) *)
 let chull =
-  if Sys.getenv_opt "C09_WRAPPER" = Some "fixed" then convex_hull_w_fixed hull_mc else convex_hull_w hull_mc
-let ref_all_offsets = Sys.getenv_opt "C09_REFHULL" = Some "offsets"
+  if Sys.getenv_opt "C09_WRAPPER" = Some "original" then convex_hull_w hull_mc else convex_hull_w_fixed hull_mc
+let ref_all_offsets = Sys.getenv_opt "C09_REFHULL" <> Some "extrema"
 
 let show_z z = hex_of_z z
 let show_box = function
